@@ -36,7 +36,10 @@ func (pass *UndiscriminatedDisjunctionToAny) processDisjunction(_ *Visitor, sche
 
 	if disjunction.Branches.HasOnlyRefs() {
 		if len(disjunction.Discriminator) == 0 || len(disjunction.DiscriminatorMapping) == 0 {
-			return ast.Any(ast.Trail("UndiscriminatedDisjunctionToAny")), nil
+			anyType := ast.Any(ast.Trail("UndiscriminatedDisjunctionToAny"))
+			anyType.Nullable = def.Nullable
+
+			return anyType, nil
 		}
 	}
 
